@@ -20,13 +20,13 @@ import filters as F
 import universe as U
 
 CONF = {
-    "C04": dict(universes=["core", "c09"], probes=False, extra=False),
-    "C09": dict(universes=["c09", "core"], probes=False, extra=False),
-    "C10": dict(universes=["c10", "core"], probes=False, extra=False),
+    "C04": dict(universes=["core", "c09", "c09b"], probes=False, extra=False),
+    "C09": dict(universes=["c09", "c09b", "core"], probes=False, extra=False),
+    "C10": dict(universes=["c10", "c10b", "core"], probes=False, extra=False),
     "C11": dict(universes=["c11", "c11b", "core"], probes=False, extra=False),
     "C12": dict(universes=["core", "c12x", "c10", "c11"], probes=True, extra=True),
     "C16": dict(universes=["core", "c16", "c11"], probes=True, extra=True),
-    "C17": dict(universes=["core", "c18", "c09"], probes=True, extra=False),
+    "C17": dict(universes=["core", "c18", "c09", "c09b"], probes=True, extra=False),
     "C18": dict(universes=["c18", "core"], probes=True, extra=True),
 }
 
@@ -115,7 +115,7 @@ def build_histories(prop, uname, u, n_edges, rnd, conf):
         edges, total = S.sample_edges(uname, n_edges, rnd, pred=relevant_edge(prop, u), frac=0.6)
         for h in edges:
             for v in S.with_variants(h, rnd, p_reopen=0.2 if prop in ("C04", "C16", "C11") else 0.08,
-                                     p_rebuild=0.2 if prop in ("C16", "C11") else 0.05):
+                                     p_rebuild=0.2 if prop in ("C16", "C11") else 0.05, n_events=u["n"]):
                 hs.append(v)
     else:
         total = 0
